@@ -25,7 +25,89 @@ pub fn plan(tier: &str, seed: u64) -> Vec<Batch> {
             v.push(Batch { check: "C07".into(), phase: "menu".into(), uni, seed, lo: i * PER_BATCH, hi: (i + 1) * PER_BATCH, fresh: false, tier: tier.into(), extra: Value::Null });
         }
     }
+    // every entry of the live procfs (root, self, self/fd, self/ns, self/task/<tid>, part of self/net)
+    for uni in [UniCfg::k(), UniCfg::e()] {
+        for ctor in 0..3u64 {
+            v.push(Batch { check: "C07".into(), phase: "live".into(), uni: uni.clone(), seed, lo: 1_000_000 + ctor * 1000, hi: 1_000_000 + ctor * 1000 + 1, fresh: false, tier: tier.into(), extra: json!({"ctor": ctor}) });
+        }
+    }
     v
+}
+
+/// all entries of the live procfs, as (base, sub-path), listed through the pristine procfs
+pub fn live_entries(tid: i32) -> Vec<(Base, String)> {
+    let pp = sys::PRISTINE_PROC.load(std::sync::atomic::Ordering::Relaxed);
+    let list = |p: &str| -> Vec<String> {
+        match sys::openat(pp, p.as_bytes(), libc::O_RDONLY | libc::O_DIRECTORY, 0) {
+            Ok(fd) => {
+                let v = sys::listdir_fd(fd).unwrap_or_default();
+                sys::close(fd);
+                v.into_iter().map(|b| String::from_utf8_lossy(&b).into_owned()).collect()
+            }
+            Err(_) => Vec::new(),
+        }
+    };
+    let mut out = Vec::new();
+    for e in list(".") {
+        if !e.bytes().all(|b| b.is_ascii_digit()) {
+            out.push((Base::Root, e));
+        }
+    }
+    for e in list("self") {
+        out.push((Base::SelfP, e.clone()));
+        if matches!(e.as_str(), "fd" | "ns" | "attr" | "fdinfo" | "task") {
+            // (descriptors from 200 up are the harness's own)
+            for s in list(&format!("self/{e}")).into_iter().filter(|s| s.parse::<u32>().map(|n| n < 200).unwrap_or(true)).take(40) {
+                let s = if e == "task" && s == tid.to_string() { "{TID}".to_string() } else { s };
+                out.push((Base::SelfP, format!("{e}/{s}")));
+            }
+        }
+        if e == "net" {
+            for s in list("self/net").into_iter().take(20) {
+                out.push((Base::SelfP, format!("net/{s}")));
+            }
+        }
+    }
+    for e in list(&format!("self/task/{tid}")) {
+        out.push((Base::ThreadSelf, e));
+    }
+    out
+}
+
+pub fn live_cases(uni: &UniCfg, ctor: u64, tid: i32) -> Vec<Case> {
+    let ents = live_entries(tid);
+    let mut cases = Vec::new();
+    for chunk in ents.chunks(10) {
+        let mut c = Case::new("C07", "live", uni.clone());
+        let (handle, mut ops, cname) = match ctor {
+            0 => (None, vec![], "global"),
+            1 => (Some(0), vec![OpSpec::new(Op::ProcNew { ctor: crate::ops::ProcCtor::New, store: 0 })], "new"),
+            _ => (Some(0), vec![OpSpec::new(Op::ProcNew { ctor: crate::ops::ProcCtor::FromFsopen, store: 0 })], "fsopen-unmasked"),
+        };
+        let facade = if handle.is_none() { Facade::C } else { Facade::Rust };
+        ops.push(OpSpec::new(Op::ProcOpen { handle, base: Base::Root, path: ".".into(), flags: libc::O_PATH | libc::O_DIRECTORY, follow: false }).facade(facade));
+        let mut meta = Vec::new();
+        for (base, p) in chunk {
+            for (k, op) in [
+                Op::ProcOpen { handle, base: *base, path: p.clone(), flags: libc::O_PATH, follow: false },
+                Op::ProcReadlink { handle, base: *base, path: p.clone(), bufsz: 512 },
+                Op::ProcOpen { handle, base: *base, path: p.clone(), flags: libc::O_PATH, follow: true },
+                Op::ProcOpen { handle, base: *base, path: format!("{p}/x"), flags: libc::O_PATH, follow: false },
+            ]
+            .into_iter()
+            .enumerate()
+            {
+                let _ = k;
+                ops.push(OpSpec::new(op).facade(facade));
+                meta.push(json!({"decorated": false}));
+            }
+        }
+        c.world = Some(warm_world());
+        c.jobs = vec![ops];
+        c.extra = json!({"ctor": cname, "meta": meta});
+        cases.push(c);
+    }
+    cases
 }
 
 pub fn gen_case(seed: u64, idx: u64, uni: &UniCfg) -> Case {
@@ -279,6 +361,7 @@ impl Hooks for H {
 }
 
 pub fn eval_case(u: &mut Universe, case0: &Case, idx: u64, st: &mut Stats, sample: bool) -> bool {
+    let live = case0.phase == "live";
     let tid = u_tid(u);
     let case = instantiate(case0, tid);
     let first_lookup = case.jobs[0].iter().position(|o| matches!(o.op, Op::ProcOpen { .. })).unwrap_or(0) + 1;
@@ -311,7 +394,9 @@ pub fn eval_case(u: &mut Universe, case0: &Case, idx: u64, st: &mut Stats, sampl
         let v = mk_violation(&c1, &out, "C07", clause, case.jobs[0][*i].name(), detail.clone());
         st.violation(&v);
     }
-    st.records.push((idx, h.recs.iter().map(|(i, r)| format!("{i}\t{r}")).collect::<Vec<_>>().join("\n")));
+    if !live {
+        st.records.push((idx, h.recs.iter().map(|(i, r)| format!("{i}\t{r}")).collect::<Vec<_>>().join("\n")));
+    }
     if sample {
         st.sample(json!({"universe": case.uni.tag(), "ctor": case.extra["ctor"], "lookups": h.recs.iter().take(5).map(|(_, r)| r.clone()).collect::<Vec<_>>()}));
     }
@@ -325,6 +410,18 @@ pub fn u_tid(u: &Universe) -> i32 {
 pub fn run(u: &mut Universe, b: &Batch, st: &mut Stats) {
     if let Err(e) = warm_up(u) {
         st.harness_errors.push(format!("warm-up: {e}"));
+        return;
+    }
+    if b.phase == "live" {
+        let tid = u_tid(u);
+        let cases = live_cases(&b.uni, b.extra["ctor"].as_u64().unwrap_or(0), tid);
+        st.count("live.entries", cases.iter().map(|c| c.extra["meta"].as_array().map(|a| a.len() / 4).unwrap_or(0) as u64).sum());
+        for (i, case) in cases.iter().enumerate() {
+            coord::progress(b.lo);
+            if !eval_case(u, case, b.lo + i as u64, st, false) || u.poisoned {
+                return;
+            }
+        }
         return;
     }
     for idx in b.lo..b.hi {
